@@ -670,9 +670,9 @@ impl ClusterActor {
                             break 'iter;
                         }
 
-                        // Check if event is beyond watermark (safety check - uses
-                        // partition_sequence)
-                        if event.partition_sequence > watermark {
+                        // Check if event is at or beyond the watermark (uses partition_sequence:
+                        // only sequences < watermark are confirmed)
+                        if event.partition_sequence >= watermark {
                             break 'iter;
                         }
 
